@@ -288,6 +288,7 @@ def run_corr_case(ctx, case):
         return
     for typ in ("Pearson", "Spearman"):
         for stat in ("mean", "median"):
+            ctx.evaluated()
             ctx.tag(f"corr:{typ}:{stat}")
             ctx.api("corr")
             got = call(m.corr, obs, ens, trans, False, stat, typ)
@@ -423,6 +424,7 @@ def run_cm_case(ctx, case):
     if len(obs) >= 2:
         ctx.nontrivial("cm", obs, sim, ncat)
     if K == 2 and want.min() > 0:
+        ctx.evaluated()
         check_binary(ctx, want, {"kind": "binary", "table": want.tolist()})
 
 
